@@ -429,3 +429,27 @@ package expr
 //@ func (e *FunctionExpression) Evaluate(ctx, input) (res, err)
 //@   requires e != nil && ctx != nil && e.Fn != nil
 //@   assigns nothing
+//
+// ---- C02: the helpers of strict-mode navigation -----------------------------------------------
+// only choice wrappers (descriptor name ending in "ValueX") and ContainedResource are looked
+// into; every other message is returned as it is
+//@ func (e *FieldExpression) unwrapOneof(obj) (res)
+//@   requires obj != nil && validItem(obj)
+//@   let name = string(pbName(pbDesc(pbReflect(obj))))
+//@   ensures !strsuffix("ValueX", name) && name != "ContainedResource" ==> res == obj
+//@   ensures res != nil
+//@   assigns nothing
+// the google/fhir helper fields of the date/time primitives are not FHIR elements; every other
+// camelCase name may be navigated on every other type
+//@ func (e *FieldExpression) isEvaluable(msg) (res)
+//@   requires e != nil
+//@   ensures e.Permissive ==> res
+//@   ensures !e.Permissive && !istype(msg, *dtpb.Time) && !istype(msg, *dtpb.Date) && !istype(msg, *dtpb.DateTime) && !istype(msg, *dtpb.Instant) ==> res == (lowerCamelS(e.FieldName) == e.FieldName)
+//@   assigns nothing
+// a contained resource held as an Any is decoded into a ContainedResource; anything else is
+// returned as it is
+//@ func (e *FieldExpression) unpackAny(obj) (res, err)
+//@   ensures !istype(obj, *anypb.Any) ==> err == nil && res == obj
+//@   ensures istype(obj, *anypb.Any) && err == nil ==> istype(res, *bcrpb.ContainedResource)
+//@   ensures err != nil ==> res == nil
+//@   assigns nothing
